@@ -482,6 +482,8 @@ func (idx *MergeSetIndex) putIndexSearch(is *indexSearch) {
 	is.mp.Reset()
 	is.vrp.Reset()
 	is.idx = nil
+	is.deleted = nil
+	is.promRegex = false
 	is.tfs = is.tfs[:0]
 	indexSearchPool.Put(is)
 }
@@ -664,6 +666,7 @@ func (idx *MergeSetIndex) getSeriesIdBySeriesKey(seriesKeyWithVersion []byte) (u
 	is := idx.getIndexSearch()
 	defer idx.putIndexSearch(is)
 
+	is.setDeleted(idx.GetDeletedTSIDs())
 	tsid, err = is.getTSIDBySeriesKey(seriesKeyWithVersion)
 
 	if err == nil {
